@@ -172,6 +172,8 @@ func cmplxsRedKernels() []*redKernel[complex128] {
 			call: func(a *A) (float64, float64) { return cmplxs.Norm(a.x.unit(), 2), 0 }, check: checkL2[complex128]()},
 		norm("cmplxs.Norm(Inf)", inf, false, 300),
 		norm("cmplxs.Norm(3)", 3, false, 90),
+		norm("cmplxs.Norm(1.5)", 1.5, false, 150),
+		norm("cmplxs.Distance(4)", 4, true, 70),
 		norm("cmplxs.Distance(1)", 1, true, 300),
 		{name: "cmplxs.Distance(2)", nsrc: 2, maxExp: 300, l2: true,
 			call: func(a *A) (float64, float64) { return cmplxs.Distance(a.x.unit(), a.y.unit(), 2), 0 }, check: checkL2Dist[complex128]()},
